@@ -2,6 +2,7 @@
 import json, os, re, shutil, subprocess, tempfile, time
 from . import common as C
 from . import l2, l3, l4, mirror as M, fsx
+from . import regexgen as G
 from .props import (general_l2, prop, prepare, l2_stream, corpus_l2, cmd_name, cmd_args, cmd_path, gen_mixed, oracle_no_command_through_link,
                     effective_dest_listing, effective_src_listing, sides_asked, is_mutating, parse_summary, trace_actions)
 
@@ -389,19 +390,31 @@ def sync_model_stream(run, n, label='sync-model'):
             t += [X('D'), str(len(nodes))]
             for e in nodes:
                 t += [X(e[0])] + tok(e)
+            # filters (4 cases in 10): generated regex ASTs over the names that occur; the model gets the AST, the CLI the rendered text
+            filters = []
+            if rng.random() < 0.4:
+                words = sorted({x for e in src_ents + dst_ents for x in e[0].split('/') if x and '\n' not in x and x.isascii()} | {'a'})
+                filters = [(rng.choice('+-'), G.gen_re(rng, rng.randint(0, 2), words)) for _ in range(rng.randint(1, 2))]
+            ftext = [s_ + G.render(a_, 0, rng) for s_, a_ in filters]
+            t += [str(len(filters))]
+            for s_, a_ in filters:
+                t += [s_] + G.tokens(a_)
             placement = rng.choice(['', '', 'localhost:'])
-            cases.append(dict(i=i, base=base, line=' '.join(t), src=src_ents, dst=dst_ents, placement=placement))
+            cases.append(dict(i=i, base=base, line=' '.join(t), src=src_ents, dst=dst_ents, placement=placement, ftext=ftext))
         model = C.run_model([c['line'] for c in cases])
         for c, m in zip(cases, model):
-            r = l4.run_cli([c['base'] + '/S/', c['placement'] + c['base'] + '/w/D/'] + M.FLAGS_NO_SKIP, env=sb.env({'RJRSSYNC_TEST_PROMPT_RESPONSE': ''}), timeout=120, cwd=c['base'])
+            fargs = [x for f_ in c['ftext'] for x in ('--filter', f_)]
+            r = l4.run_cli([c['base'] + '/S/', c['placement'] + c['base'] + '/w/D/'] + M.FLAGS_NO_SKIP + fargs, env=sb.env({'RJRSSYNC_TEST_PROMPT_RESPONSE': ''}), timeout=120, cwd=c['base'])
             snap = fsx.snapshot_world(c['base'] + '/w', 10 ** 30, 10 ** 30 + 1) if r['rc'] == 0 else None
             nt = r['rc'] == 0 and len(c['src']) + len(c['dst']) > 0
-            run.case((label, c['line'][:3000]), nt, sample=dict(layer='L4', source_entries=len(c['src']), dest_entries=len(c['dst']), rc=r['rc'], model=m[:80]) if c['i'] % 15 == 0 else None)
-            run.count(f'{label}:rc={r["rc"]}:model={m.split(" ")[0]}'); run.cov['traces_validated_against_impl'] += 1
+            run.case((label, c['line'][:3000]), nt, sample=dict(layer='L4', source_entries=len(c['src']), dest_entries=len(c['dst']), filters=c['ftext'], rc=r['rc'], model=m[:80]) if c['i'] % 15 == 0 else None)
+            run.count(f'{label}:{"filters" if c["ftext"] else "no-filters"}:rc={r["rc"]}:model={m.split(" ")[0]}'); run.cov['traces_validated_against_impl'] += 1
             want = f'ok fs=[{snap}]' if snap is not None else None
-            if r['rc'] != 0 or m != want:
+            # model `err` = a call fails (with filters: a folder that must go still holds something the walk did not reach): the CLI reports an error
+            agree = (m == want) if r['rc'] == 0 else (m == 'err' and r['rc'] == 12 and bool(c['ftext']))
+            if not agree:
                 ms = set(m[7:-1].split(';')) if m.startswith('ok fs=[') else set(); is_ = set(snap.split(';')) if snap else set()
-                bad.append(dict(layer='L4', args=['<base>/S/', c['placement'] + '<base>/w/D/'] + M.FLAGS_NO_SKIP, rc=r['rc'], model_outcome=m.split(' ')[0],
+                bad.append(dict(layer='L4', args=['<base>/S/', c['placement'] + '<base>/w/D/'] + M.FLAGS_NO_SKIP + fargs, rc=r['rc'], model_outcome=m.split(' ')[0],
                                 only_model=sorted(ms - is_)[:4], only_implementation=sorted(is_ - ms)[:4], src_tree=M.tree_listing(c['base'] + '/S'), dest_tree_after=M.tree_listing(c['base'] + '/w/D'), stderr=r['err'][-300:]))
             shutil.rmtree(c['base'], ignore_errors=True)
         run.cov['disagreements_checked'] += len(cases)
